@@ -105,6 +105,16 @@ func runC20(c *Ctx) {
 		var picked []fhir.Resource
 		var entries []*bcrpb.Bundle_Entry
 		for i := 0; i < n; i++ {
+			if c.rng.Intn(4) == 0 {
+				// an entry without a resource (e.g. a delete request) unwraps to nil IN PLACE
+				picked = append(picked, nil)
+				if c.rng.Bool() {
+					entries = append(entries, &bcrpb.Bundle_Entry{})
+				} else {
+					entries = append(entries, bundle.NewDeleteEntry("Patient", "x"))
+				}
+				continue
+			}
 			r := Pick(c.rng, all)
 			picked = append(picked, r)
 			entries = append(entries, bundle.NewCollectionEntry(r))
@@ -112,8 +122,12 @@ func runC20(c *Ctx) {
 		b := bundle.NewCollection(bundle.WithEntries(entries...))
 		got := bundle.Unwrap(b)
 		ok := len(got) == len(picked)
-		for i := range got {
-			ok = ok && got[i] == picked[i]
+		for i := 0; ok && i < len(got); i++ {
+			if picked[i] == nil {
+				ok = got[i] == nil || isNilResource(got[i])
+			} else {
+				ok = got[i] == picked[i]
+			}
 		}
 		c.Law(ok, "C20/bundle-order", "a bundle unwraps to its entries' resources in order", fmt.Sprint(n, " entries"), "")
 	}
@@ -158,8 +172,10 @@ func runC20(c *Ctx) {
 		switch c.rng.Intn(4) {
 		case 0:
 			u, v := Pick(c.rng, urls), 100+c.rng.Intn(100)
+			old := append([]*dtpb.Extension{}, p.Extension...)
 			extension.Upsert(p, mkExt(u, v))
 			c.Emit(fmt.Sprintf("upsert %s %s=%d", before, u, v), "ok:"+extsToken(p.Extension), true)
+			c.Law(othersUnchanged(old, p.Extension, u), "C20/upsert-locality", "upsert changes only extensions with that URL", before+" upsert "+u, extsToken(p.Extension))
 		case 1:
 			u := Pick(c.rng, urls)
 			k := c.rng.Intn(3)
@@ -170,7 +186,18 @@ func runC20(c *Ctx) {
 				vals = append(vals, fhir.Integer(int32(v)))
 				vs = append(vs, strconv.Itoa(v))
 			}
+			old := append([]*dtpb.Extension{}, p.Extension...)
 			extension.SetByURL(p, u, vals...)
+			{
+				var withURL []string
+				for _, e := range p.Extension {
+					if e.GetUrl().GetValue() == u {
+						withURL = append(withURL, fmt.Sprint(e.GetValue().GetInteger().GetValue()))
+					}
+				}
+				c.Law(othersUnchanged(old, p.Extension, u) && strings.Join(withURL, ",") == strings.Join(vs, ","), "C20/setbyurl-locality",
+					"setByURL leaves other URLs untouched and holds exactly the new values for that URL", before+" setByURL "+u+" "+strings.Join(vs, ","), extsToken(p.Extension))
+			}
 			vt := "-"
 			if k > 0 {
 				vt = strings.Join(vs, ",")
@@ -302,6 +329,35 @@ func runC20(c *Ctx) {
 	_ = sort.Strings
 	_ = fhirpath.Compile
 	_ = system.Collection{}
+}
+
+func isNilResource(r fhir.Resource) bool {
+	defer func() { recover() }()
+	return r == nil || !r.ProtoReflect().IsValid()
+}
+
+// othersUnchanged: the sub-list of extensions whose URL is not u is the same (same pointers, same order).
+func othersUnchanged(before, after []*dtpb.Extension, u string) bool {
+	var a, b []*dtpb.Extension
+	for _, e := range before {
+		if e.GetUrl().GetValue() != u {
+			a = append(a, e)
+		}
+	}
+	for _, e := range after {
+		if e.GetUrl().GetValue() != u {
+			b = append(b, e)
+		}
+	}
+	if len(a) != len(b) {
+		return false
+	}
+	for i := range a {
+		if a[i] != b[i] {
+			return false
+		}
+	}
+	return true
 }
 
 // jsonAt resolves a label like Patient.name[0].given[1] / Patient.deceasedBoolean in the JSON tree.
